@@ -9,7 +9,7 @@ C++ harness from the current tree (hooks on, asserts on, ASan+UBSan) -> correspo
 operation files (corpus first) -> property predicates evaluated on the implementation -> known
 findings -> evidence.  Exit 0 = property held on everything explored; exit 1 + "VIOLATION ..." otherwise.
 """
-import argparse, json, os, re, sys, time, hashlib, subprocess
+import random, argparse, json, os, re, sys, time, hashlib, subprocess
 sys.path.insert(0, os.path.dirname(os.path.abspath(__file__)))
 from common import *
 import gen as gentables
@@ -126,6 +126,7 @@ class Runner:
         text = '\n'.join(lines) + '\n'
         self.runs += 1
         cpp, rc, err = run_ops(self.harness, text)
+        cpp, self.last_steps = split_steps(cpp)
         lean = None
         if need_model:
             lean, lrc, lerr = run_ops(self.driver, text)
@@ -347,6 +348,7 @@ def main():
     known_hits = {}
     if lines:
         cpp, rc, err, lean = runner.run(lines)
+        runner.main_steps = runner.last_steps
         crash_at = find_crash_line(runner, lines, cpp)
         n = min(len(cpp), len(lines))
         cases = split_cases(lines)
@@ -354,9 +356,10 @@ def main():
         for (s, ls) in cases:
             for j in range(len(ls)): case_of[s + j] = (s, ls)
         seen_cases = set()
+        # pass 1: classify every line; per case remember the first public and the first hidden-only divergence
+        first_pub, first_hid = {}, {}
         for i in range(n):
             res = compare_line(lines[i], cpp[i], lean[i])
-            res.sort(key=lambda kd: 1 if kd[0] == 'hidden' else 0)   # a public divergence on the same line takes precedence
             if lines[i] != 'case':
                 distinct.add(cpp[i].split(' @@')[0])
             for (kind, detail) in res:
@@ -364,44 +367,63 @@ def main():
                 if kf:
                     known_hits[kf] = known_hits.get(kf, 0) + 1; continue
                 kinds[kind] = kinds.get(kind, 0) + 1
-                s, ls = case_of[i]
-                if s in seen_cases or len(violations) >= 5: continue
-                seen_cases.add(s)
-                found = kind != 'hidden'
-                prefix = ls[:i - s + 1]
-                small = None
-                if kind == 'hidden':
-                    # hidden state only (offsets / flags / segment count / params list / sorted flag): search for a
-                    # public manifestation. Stale bookkeeping shows itself in a LATER operation, so follow-up
-                    # operations are appended to the UNSHRUNK history first (it has the most state), then shrunk.
-                    followups = [['probe 0'], ['probe 1'], ['dump 0'], ['dump 1'], ['sp 0 sort', 'dump 0'], ['sp 1 sort', 'dump 1'],
-                                 ['sp 0 append 8 7a 8 31', 'dump 0'], ['sp 1 append 8 7a 8 31', 'dump 1'], ['psp 0 sort'], ['psp 1 sort'],
-                                 ['psp 0 append 8 7a 8 31', 'psp 0 append 8 61 8 32', 'psp 0 sort'], ['psp 1 append 8 7a 8 31', 'psp 1 append 8 61 8 32', 'psp 1 sort'],
-                                 ['psp 0 append 8 ee,80,80 8 31', 'psp 0 append 8 f0,90,80,80 8 32', 'psp 0 sort'],
-                                 ['sp 0 append 8 7a 8 31', 'sp 0 append 8 61 8 32', 'sp 0 sort', 'dump 0'], ['sp 1 append 8 7a 8 31', 'sp 1 append 8 61 8 32', 'sp 1 sort', 'dump 1'],
-                                 ['set 0 pathname 8 2f,2e,2e,2f,78', 'dump 0'], ['set 1 pathname 8 2f,2e,2e,2f,78', 'dump 1'],
-                                 ['parse 2 8 2e,2e,2f,79 s0', 'dump 2'], ['parse 2 8 2e,2e,2f,79 s1', 'dump 2'],
-                                 ['parse 2 8 - s0', 'dump 2'], ['parse 2 8 3f,71 s0', 'dump 2'], ['parse 2 8 23,66 s1', 'dump 2']]
-                    for fu in followups:
-                        aug = prefix + fu
-                        try:
-                            c2, _, _, l2 = runner.run(aug)
-                        except Exception:
-                            continue
-                        hit = None
-                        for jj in range(len(prefix), min(len(c2), len(aug))):
-                            r2 = [k for (k, _) in compare_line(aug[jj], c2[jj], l2[jj]) if k != 'hidden']
-                            if r2: hit = (jj, r2[0], c2[jj]); break
-                        if hit:
-                            small = shrink(runner, aug[:hit[0] + 1], hit[0], hit[1])
-                            found = True
-                            detail += '\nhidden state diverged at: %s\npublic manifestation (%s): %s' % (readable(ls[i - s]), hit[1], hit[2][:300])
-                            break
-                if small is None:
-                    small = shrink(runner, ls, i - s, kind)
-                    if kind == 'hidden':
-                        detail += '\ncorrespondence (hidden state: offsets / flags / segment count / params list) no longer checks for operation: ' + readable(small[-1])
-                violations.append((kind, small, '%s\n%s' % (kind, detail[:3000]), found))
+                s0 = case_of[i][0]
+                d = first_hid if kind == 'hidden' else first_pub
+                if s0 not in d: d[s0] = (i, kind, detail)
+        # pass 2: public divergences are failing inputs as they stand (a hidden divergence earlier in the same
+        # case is then its cause and is named in the detail)
+        for s0 in sorted(first_pub):
+            if len(violations) >= 5: break
+            i, kind, detail = first_pub[s0]
+            s, ls = case_of[i]
+            if s0 in first_hid and first_hid[s0][0] < i:
+                detail += '\nhidden state had diverged before, at: %s (%s)' % (readable(lines[first_hid[s0][0]]), first_hid[s0][2][:300])
+            small = shrink(runner, ls, i - s, kind)
+            violations.append((kind, small, '%s\n%s' % (kind, detail[:3000]), True))
+            seen_cases.add(s0)
+        # pass 3: hidden state only (offsets / flags / segment count / params list / sorted flag), no public
+        # divergence in that case: search for a public manifestation. Stale bookkeeping shows itself in a LATER
+        # operation, so follow-up operations are appended to the UNSHRUNK history (it has the most state):
+        # a fixed battery first, then the operation lists of other cases of the same run (same object slots).
+        other_cases = [ls2[1:] for (_, ls2) in cases if len(ls2) > 1]
+        for s0 in sorted(first_hid):
+            if s0 in seen_cases or len(violations) >= 5: continue
+            if violations and all(v[3] for v in violations) and len(violations) >= 2: break   # enough concrete inputs already
+            i, kind, detail = first_hid[s0]
+            s, ls = case_of[i]
+            seen_cases.add(s0)
+            prefix = ls[:i - s + 1]
+            small = None
+            found = False
+            followups = [['probe 0'], ['probe 1'], ['dump 0'], ['dump 1'], ['sp 0 sort', 'dump 0'], ['sp 1 sort', 'dump 1'],
+                         ['sp 0 append 8 7a 8 31', 'dump 0'], ['sp 1 append 8 7a 8 31', 'dump 1'], ['psp 0 sort'], ['psp 1 sort'],
+                         ['psp 0 append 8 7a 8 31', 'psp 0 append 8 61 8 32', 'psp 0 sort'], ['psp 1 append 8 7a 8 31', 'psp 1 append 8 61 8 32', 'psp 1 sort'],
+                         ['psp 0 append 8 ee,80,80 8 31', 'psp 0 append 8 f0,90,80,80 8 32', 'psp 0 sort'],
+                         ['sp 0 append 8 7a 8 31', 'sp 0 append 8 61 8 32', 'sp 0 sort', 'dump 0'], ['sp 1 append 8 7a 8 31', 'sp 1 append 8 61 8 32', 'sp 1 sort', 'dump 1'],
+                         ['set 0 pathname 8 2f,2e,2e,2f,78', 'dump 0'], ['set 1 pathname 8 2f,2e,2e,2f,78', 'dump 1'],
+                         ['parse 2 8 2e,2e,2f,79 s0', 'dump 2'], ['parse 2 8 2e,2e,2f,79 s1', 'dump 2'],
+                         ['parse 2 8 - s0', 'dump 2'], ['parse 2 8 3f,71 s0', 'dump 2'], ['parse 2 8 23,66 s1', 'dump 2']]
+            rnd = random.Random(seed * 7919 + i)
+            extra_fu = list(other_cases); rnd.shuffle(extra_fu)
+            for fu in followups + extra_fu[:120]:
+                aug = prefix + fu
+                try:
+                    c2, _, _, l2 = runner.run(aug)
+                except Exception:
+                    continue
+                hit = None
+                for jj in range(len(prefix), min(len(c2), len(aug))):
+                    r2 = [k for (k, _) in compare_line(aug[jj], c2[jj], l2[jj]) if k != 'hidden' and not known_class(aug[jj], k)]
+                    if r2: hit = (jj, r2[0], c2[jj]); break
+                if hit:
+                    small = shrink(runner, aug[:hit[0] + 1], hit[0], hit[1])
+                    found = True
+                    detail += '\nhidden state diverged at: %s\npublic manifestation (%s): %s' % (readable(ls[i - s]), hit[1], hit[2][:300])
+                    break
+            if small is None:
+                small = shrink(runner, ls, i - s, kind)
+                detail += '\ncorrespondence (hidden state: offsets / flags / segment count / params list) no longer checks for operation: ' + readable(small[-1])
+            violations.append((kind, small, '%s\n%s' % (kind, detail[:3000]), found))
         if crash_at is not None and crash_at < len(lines):
             s, ls = case_of[crash_at]
             small = shrink(runner, ls, crash_at - s, 'crash')
